@@ -201,11 +201,19 @@ def loop_body(enc, head_call_re):
     return body
 
 
-def ghost_count(enc, pattern, within=None):
+def ghost_count(enc, pattern, within=None, loop_aware=False):
     """Int term per block: number of calls matching `pattern` executed before the END of the block,
-    along the (merged) paths; restricted to blocks in `within` (others contribute 0 and reset)."""
+    along the (merged) paths; restricted to blocks in `within` (others contribute 0 and reset).
+    loop_aware: at the head of a loop whose body contains a matching call the count is an
+    arbitrary non-negative number (calls made by earlier iterations)."""
     pre = re.compile(pattern)
     g_out = {}
+    side = []
+
+    def hit_block(b):
+        t = enc.blocks[b].term
+        return bool(t and t["kind"] == "call" and pre.search(t["callee"]) and (within is None or b in within))
+    n = 0
     for b in enc.order:
         ps = [p for p in enc.preds[b] if within is None or p in within]
         if not ps or (within is not None and b not in within):
@@ -214,10 +222,54 @@ def ghost_count(enc, pattern, within=None):
             g_in = g_out[ps[-1]]
             for p in reversed(ps[:-1]):
                 g_in = z3.If(z3.And(enc.reach[p], enc.edge[(p, b)]), g_out[p], g_in)
-        t = enc.blocks[b].term
-        hit = t and t["kind"] == "call" and pre.search(t["callee"]) and (within is None or b in within)
-        g_out[b] = g_in + 1 if hit else g_in
+        if loop_aware and b in enc.loop_bodies and any(hit_block(x) for x in enc.loop_bodies[b]):
+            n += 1
+            prev = z3.Int("ghost_prev_iters_%d_bb%d" % (n, b))
+            side.append(prev >= 0)
+            g_in = g_in + prev
+        g_out[b] = g_in + 1 if hit_block(b) else g_in
+    if loop_aware:
+        return g_out, side
     return g_out
+
+
+def q_no_error_after(ctx, p):
+    """Failure atomicity of a handler: no call matching `error` (an argument-error reply) is
+    reachable on a path on which a call matching `effect` (a mutating engine call) has already
+    been executed - including effects of earlier iterations of the loop the error sits in."""
+    funcs = ctx.funcs
+    fns = find_fn(funcs, p["fn"])
+    if len(fns) != 1:
+        return dict(status="inconclusive", reason="function pattern matched %d" % len(fns))
+    fn = fns[0]
+    enc = sym.Enc(fn, funcs, sym.Glob())
+    g, side = ghost_count(enc, p["effect"], loop_aware=True)
+    s = z3.Solver()
+    s.add(enc.extra)
+    s.add(side)
+    errs = enc.call_sites(p["error"])
+    effs = enc.call_sites(p["effect"])
+    if not errs or not effs:
+        return dict(status="inconclusive", reason="vacuity guard: %d error sites, %d effect sites" % (len(errs), len(effs)))
+    witnesses = []
+    obligations = discharged = 0
+    for b, t in errs:
+        obligations += 1
+        r = ctx.check(s, enc.reach[b], g[b] > 0)
+        if r == z3.sat:
+            arg = t["args"][0] if t["args"] else ""
+            witnesses.append(dict(key="%s: error reply after %s" % (short_fn(fn.name), p["effect"]),
+                                  what="error reply %s (bb%d) is reachable after %s has already taken effect: a refused command leaves a partial effect" % (arg[:60], b, p["effect"])))
+        elif r == z3.unsat:
+            discharged += 1
+        else:
+            return dict(status="inconclusive", reason="solver unknown")
+    uniq = {}
+    for w in witnesses:
+        uniq.setdefault(w["key"], w)
+    return dict(status="failed" if uniq else "held", witnesses=list(uniq.values()), obligations=obligations,
+                discharged=discharged, functions=[fn.name],
+                details=["%d error-reply sites, %d effect sites; loop heads carry an arbitrary number of earlier effects" % (len(errs), len(effs))])
 
 
 # ---------------------------------------------------------------------------------------------
@@ -536,6 +588,7 @@ def q_arg_flow(ctx, p):
 
 
 KINDS = {
+    "no_error_after": q_no_error_after,
     "arg_flow": q_arg_flow,
     "reach_allow": q_reach_allow,
     "loop_one_push": q_loop_one_push,
